@@ -39,9 +39,12 @@ def make_fn(task_name: str, nout: int, short_by: int = 0):
 
         h = hashlib.blake2b(repr((args, sorted(kwargs.items()))).encode(), digest_size=8).hexdigest()
         base = task_name + ":" + h
-        if nout == 1:
+        # a callable shared by tasks that declare different numbers of outputs is told how many to yield (static keyword "_n"),
+        # like a user's split(x, n)
+        n = kwargs.get("_n", nout)
+        if n == 1:
             return base
-        return (base + "#" + str(i) for i in range(nout - short_by))
+        return (base + "#" + str(i) for i in range(n - short_by))
 
     return fn
 
@@ -167,8 +170,14 @@ def job_specs(draw, max_tasks: int = 14, min_tasks: int = 0, max_outs: int = 4, 
         # remembered per callable must not be taken for the task
         fn_of = None
         same_arity = [j for j, t0 in enumerate(tasks) if len(t0["outs"]) == len(outs) and t0.get("fn_of") is None]
+        any_arity = [j for j, t0 in enumerate(tasks) if t0.get("fn_of") is None and t0.get("twin_of") is None]
         if same_arity and draw(st.integers(0, 5)) == 0:
             fn_of = draw(st.sampled_from(same_arity))
+        elif any_arity and draw(st.integers(0, 7)) == 0:
+            # ... and with another NUMBER of outputs: both tasks pass the count as a static keyword
+            fn_of = draw(st.sampled_from(any_arity))
+            tasks[fn_of]["kwargs"]["_n"] = {"s": len(tasks[fn_of]["outs"])}
+            kwargs["_n"] = {"s": len(outs)}
         tasks.append({
             "fn_of": fn_of,
             "name": tname(perm[i]),
